@@ -32,8 +32,10 @@ def gen_cases(tier, seed):
         r = random.Random(env.seed_for(s, "descriptor"))  # independent of the stream run_case derives from the same seed
         if r.random() < 0.15:
             out.append({"seed": s, "mode": "cyclic", "n": r.randint(2, 20), "W": r.choice([1, 2, 4, 8]),
-                        "sched": r.choice(["default", "random"]), "kind": r.choice(["self", "two", "long", "lit", "unneeded", "needed"]),
-                        "registry": r.random() < 0.4, "dry": r.random() < 0.2})
+                        "sched": r.choice(["default", "random"]), "kind": r.choice(["self", "two", "long", "lit", "unneeded", "needed", "transform", "needed"]),
+                        "registry": r.random() < 0.4, "dry": r.random() < 0.2,
+                        # sparse plans: several independent pipelines plus isolated calls, so that the whole graph has fewer edges than nodes
+                        "family": r.choice([None, None, "disconnected", "tree", "chain"]), "isolated": r.choice([0, 0, 3, 8])})
             continue
         q = r.random()
         if q < 0.04:
@@ -422,7 +424,9 @@ def run_cyclic(desc):
     from vmon import vstore
 
     rng = random.Random(desc["seed"])
-    ir = irmod.gen_ir(rng, desc["n"], rich=False, cfg={"out": "sinks"})
+    ir = irmod.gen_ir(rng, desc["n"], rich=False, family=desc.get("family"), cfg={"out": "sinks", "p_par": 0.0} if desc.get("family") else {"out": "sinks"})
+    for _ in range(desc.get("isolated", 0)):
+        ir.add("call", fname="iso")  # calls nobody asks for: with a registry the whole plan is examined, and it has far fewer edges than nodes
     H = rec.Harness(ir, record_args=False)
     plan = uberjob.Plan()
     out = irmod.build(ir, plan, H.make_fn)
@@ -433,7 +437,24 @@ def run_cyclic(desc):
     node = lambda i: ir.nodes[i].node
     preds = ir.preds()
     cyc_nodes = []
-    if kind == "unneeded" and len(unneeded) >= 1:
+    tkw = {}
+    if kind == "transform":
+        # the plan handed to run is acyclic; the cycle is introduced by transform_physical into the plan that actually executes
+        pool_t = needed or calls
+        a_t = rng.choice(pool_t)
+
+        def tp(p_, o_):
+            anc_t = sorted((ir.ancestors([a_t], preds) - {a_t}) & set(calls))
+            b_t = anc_t[0] if anc_t else a_t
+            if p_.graph.has_node(node(a_t)) and p_.graph.has_node(node(b_t)):
+                p_.add_dependency(node(a_t), node(b_t))
+                tkw["applied"] = True
+            return p_, o_
+
+        tkw["transform_physical"] = tp
+        cyc_nodes = [a_t, "via transform_physical"]
+        examined = True
+    elif kind == "unneeded" and len(unneeded) >= 1:
         a = rng.choice(unneeded)
         # only nodes from which no needed node is reachable stay unexamined without a registry
         desc_of_a = [c for c in unneeded if a in ir.ancestors([c], preds)]
@@ -474,6 +495,9 @@ def run_cyclic(desc):
         examined = True  # the stale check walks the whole plan
     elif desc.get("dry"):
         examined = False  # a dry run without registry executes and examines nothing; it only returns the pruned plan
+    if kind == "transform":
+        # the cycle exists only in the plan that executes: a dry run returns it without executing; nothing but "no hang" is demanded there
+        examined = not desc.get("dry")
     W = Watch(desc)
     exc = None
     result = None
@@ -481,16 +505,22 @@ def run_cyclic(desc):
     with W:
         try:
             result = uberjob.run(plan, output=out, registry=reg, max_workers=desc["W"], scheduler=desc["sched"], progress=None,
-                                 dry_run=bool(desc.get("dry")))
+                                 dry_run=bool(desc.get("dry")), **({"transform_physical": tkw["transform_physical"]} if "transform_physical" in tkw else {}))
         except BaseException as e:
             exc = e
     leaked = rec.new_threads(before)
     bad = None
     if leaked:
         bad = f"threads left alive after a cyclic plan: {[t.name for t in leaked]}"
+    elif examined and kind == "transform" and not tkw.get("applied"):
+        pass  # the transformation found nothing to connect (pruned away)
     elif examined:
         if exc is None:
             bad = f"cycle {cyc_nodes} among examined nodes was not reported: run returned {type(result).__name__}"
+        elif H.events and kind == "transform":
+            # stale check and store access legitimately precede the transformation; but no CALL may execute on a cyclic physical plan
+            if any(e[1] == "start" for e in H.events):
+                bad = f"cycle introduced by transform_physical reported ({exc!r}) only after calls had executed: {H.compact_history(6)}"
         elif H.events:
             bad = f"cycle {cyc_nodes} reported ({exc!r}) only after {len(H.events)} call/store event(s) had happened: {H.compact_history(6)}"
     else:
